@@ -458,6 +458,21 @@ def rule_rule(rep, ctx, sfx):
             if t is None:
                 return None
             return eval_expr_init(n["then"] if t else n["else"], ty, ws, env)
+        if k == "Match" and RTYPE in (n.get("sty") or peel(n["scrut"]).get("ty") or ""):
+            # `match rule.ty { A | B => .., C if <name test> => .., _ => .. }`: first arm whose pattern covers ty and
+            # whose guard evaluates to true
+            for arm in n["arms"]:
+                vs = hirq.pat_variants(arm["pat"])
+                if not (RTYPE + "::" + ty in vs or hirq.pat_is_catchall(arm["pat"])):
+                    continue
+                if arm.get("guard") is not None:
+                    g = eval_cond(arm["guard"], ty, ws)
+                    if g is None:
+                        return None
+                    if not g:
+                        continue
+                return eval_expr_init(arm["body"], ty, ws, env)
+            return None
         if k == "Block":
             e2 = dict(env)
             for st in n.get("stmts", []):
